@@ -94,25 +94,16 @@ func (h *legacyHandler) tickResourcePackQueue() error {
 		if h.prevResourceResponse != nil && !*h.prevResourceResponse {
 			// If that happened we can flush the queue right away.
 			// Unless its 1.17+ and forced it will come back denied anyway
-			for h.outstandingPacks.Len() > 0 {
-				queued, _ = h.outstandingPacks.Front()
-				if queued.ShouldForce && h.player.Protocol().GreaterEqual(version.Minecraft_1_17) {
-					break
-				}
+			if !queued.ShouldForce || h.player.Protocol().Lower(version.Minecraft_1_17) {
 				resBundle := &ResponseBundle{
 					ID:     queued.ID,
 					Hash:   queued.Hash,
 					Status: DeclinedResponseStatus,
 				}
+				// Declining removes the pack from the queue and ticks the rest of the queue,
+				// so there is nothing left to send from here.
 				_, err := h.onResourcePackResponseLocked(resBundle, h.shouldDisconnectForForcePack)
-				if err != nil {
-					return err
-				}
-				queued = nil
-			}
-			if queued == nil {
-				// Exit as the queue was cleared
-				return nil
+				return err
 			}
 		}
 
